@@ -527,6 +527,11 @@ func (c *TermCtx) Extract(a *Term, hi, lo int) *Term {
 		if a.args[1].op == OpConst && a.args[2].op == OpConst {
 			return c.Ite(a.args[0], c.Extract(a.args[1], hi, lo), c.Extract(a.args[2], hi, lo))
 		}
+	case OpAdd:
+		// truncation distributes over addition; keep index arithmetic in "x + const" form
+		if lo == 0 && a.args[1].op == OpConst && a.w <= 64 {
+			return c.Bin(OpAdd, c.Extract(a.args[0], hi, 0), Const(w, a.args[1].val))
+		}
 	}
 	return c.mk(OpExtract, w, uint64(hi)<<8|uint64(lo), "", a)
 }
@@ -544,7 +549,29 @@ func (c *TermCtx) ZExt(a *Term, w int) *Term {
 	if a.op == OpZExt {
 		return c.ZExt(a.args[0], w)
 	}
+	if y, cs, ok := smallAdd(a); ok && w <= 64 && a.w < 64 {
+		lo, hi := cs, int64(mask(y.w))+cs
+		if lo >= 0 && hi <= int64(mask(a.w)) {
+			return c.Bin(OpAdd, c.ZExt(y, w), Const(w, uint64(cs)))
+		}
+	}
 	return c.mk(OpZExt, w, 0, "", a)
+}
+
+// smallAdd recognises zext(y) + const (y at most 32 bits wide, |const| small).
+func smallAdd(a *Term) (y *Term, cs int64, ok bool) {
+	if a.op != OpAdd || a.w > 64 || a.args[1].op != OpConst || a.args[0].op != OpZExt {
+		return nil, 0, false
+	}
+	y = a.args[0].args[0]
+	if y.w > 32 || y.w >= a.w {
+		return nil, 0, false
+	}
+	cs = sx(a.args[1].val, a.w)
+	if cs > 1<<40 || cs < -(1<<40) {
+		return nil, 0, false
+	}
+	return y, cs, true
 }
 
 func (c *TermCtx) SExt(a *Term, w int) *Term {
@@ -560,6 +587,14 @@ func (c *TermCtx) SExt(a *Term, w int) *Term {
 	if a.op == OpZExt && a.args[0].w < a.w {
 		// sign bit known zero
 		return c.ZExt(a.args[0], w)
+	}
+	if y, cs, ok := smallAdd(a); ok && w <= 64 {
+		// sext(zext(y)+c) == zext(y)+c when the narrow addition cannot overflow
+		lo, hi := cs, int64(mask(y.w))+cs
+		lim := int64(1) << uint(a.w-1)
+		if lo >= -lim && hi <= lim-1 {
+			return c.Bin(OpAdd, c.ZExt(y, w), Const(w, uint64(cs)))
+		}
 	}
 	return c.mk(OpSExt, w, 0, "", a)
 }
@@ -638,6 +673,11 @@ func (c *TermCtx) Eq(a, b *Term) *Term {
 	if a.op == OpZExt && b.op == OpZExt && a.args[0].w == b.args[0].w {
 		return c.Eq(a.args[0], b.args[0])
 	}
+	if a.w == 64 {
+		if c1, c2, ok := sameNarrowBase(a, b); ok {
+			return BoolT(c1 == c2)
+		}
+	}
 	if a.id > b.id && b.op != OpConst {
 		a, b = b, a
 	}
@@ -714,6 +754,25 @@ func (c *TermCtx) Cmp(op Op, a, b *Term) *Term {
 		}
 		if b.op == OpConst && w <= 64 && b.val == mask(w) {
 			return tTrue
+		}
+	}
+	// (base + c1) cmp (base + c2) with base a zero-extended narrow value: no wrap-around is possible
+	if w == 64 {
+		if c1, c2, ok := sameNarrowBase(a, b); ok {
+			switch op {
+			case OpSLt:
+				return BoolT(c1 < c2)
+			case OpSLe:
+				return BoolT(c1 <= c2)
+			case OpULt:
+				if c1 >= 0 && c2 >= 0 {
+					return BoolT(c1 < c2)
+				}
+			case OpULe:
+				if c1 >= 0 && c2 >= 0 {
+					return BoolT(c1 <= c2)
+				}
+			}
 		}
 	}
 	// zext(x) cmp zext(y), same inner width: unsigned compare of the inner values
